@@ -322,3 +322,7 @@ impl GlobalIndex {
 }
 
 impl ReadGlobalIndex for GlobalIndex {}
+
+#[cfg(kani)]
+#[path = "/verif/harness/index.rs"]
+pub(crate) mod verif_harness;
